@@ -149,12 +149,14 @@ pub struct ConcVec;
 
 impl Area for ConcVec {
     fn corpus(&self) -> Vec<Vec<String>> {
-        vec![vec!["cvec prog=with:a,with:a|with:a,rm:a|collect,with:b sseed=5".into()], vec!["cvec prog=with:a|with:a|with:a sseed=9".into()]]
+        vec![vec!["cvec prog=with:a,with:a|with:a,rm:a|collect,with:b sseed=5".into()], vec!["cvec prog=with:a|with:a|with:a sseed=9".into()],
+             vec!["cvec prog=with:a,rm:a,hinc|collect,collect sseed=12".into()], vec!["cvec prog=hinc,with:b,reset,hinc,hinc|collect|with:b,collect sseed=31".into()]]
     }
     fn gen(&self, rng: &mut Rng, _thorough: bool, _stats: &mut Stats) -> Vec<String> {
         let nt = rng.range(2, 3);
+        // `hinc` = an update through the handle this thread obtained last (kept across removals / resets)
         let prog: Vec<String> = (0..nt).map(|_| { let n = rng.range(1, 3); (0..n).map(|_| { let k = *rng.pick(&["a", "a", "b"]);
-            match rng.below(10) { 0..=4 => format!("with:{}", k), 5..=6 => format!("rm:{}", k), 7 => "reset".to_string(), _ => "collect".to_string() } }).collect::<Vec<_>>().join(",") }).collect();
+            match rng.below(12) { 0..=4 => format!("with:{}", k), 5..=6 => format!("rm:{}", k), 7 => "reset".to_string(), 8..=9 => "hinc".to_string(), _ => "collect".to_string() } }).collect::<Vec<_>>().join(",") }).collect();
         vec![format!("cvec prog={} sseed={}", prog.join("|"), rng.next() % 1_000_000)]
     }
     fn exec(&self, lines: &[String], stats: &mut Stats) -> ExecOut {
@@ -165,11 +167,12 @@ impl Area for ConcVec {
             let v = IntCounterVec::new(Opts::new("v", "h"), &["l"]).unwrap();
             let handles: Arc<Mutex<Vec<(usize, usize, IntCounter)>>> = Arc::new(Mutex::new(vec![])); // (tid, op index, handle)
             let bodies: Vec<Body> = prog.iter().enumerate().map(|(tid, ops)| { let ops = ops.clone(); let v = v.clone(); let handles = handles.clone();
-                Box::new(move |ctx: &sched::Ctx| { for (i, op) in ops.iter().enumerate() {
+                Box::new(move |ctx: &sched::Ctx| { let mut last: Option<IntCounter> = None; for (i, op) in ops.iter().enumerate() {
                     ctx.mark(format!("call.{}.{}", i, op));
                     let (name, k) = op.split_once(':').unwrap_or((op.as_str(), ""));
                     let r = match name {
-                        "with" => { let h = v.with_label_values(&[k]); handles.lock().unwrap().push((tid, i, h)); "h".to_string() }
+                        "with" => { let h = v.with_label_values(&[k]); last = Some(h.clone()); handles.lock().unwrap().push((tid, i, h)); "h".to_string() }
+                        "hinc" => { if let Some(h) = &last { h.inc(); } "".to_string() }
                         "rm" => match v.remove_label_values(&[k]) { Ok(()) => "ok".into(), Err(_) => "err".into() },
                         "reset" => { v.reset(); "".into() }
                         _ => { let mf = v.collect(); let mut ks: Vec<String> = mf[0].get_metric().iter().map(|m| format!("{}={}", m.get_label()[0].value(), m.get_counter().value() as u64)).collect(); ks.sort(); ks.join("+") }
@@ -193,6 +196,11 @@ impl Area for ConcVec {
             let class_of = |tid: usize, i: usize| -> usize { let j = hs.iter().position(|h| h.0 == tid && h.1 == i).unwrap(); classes.iter().position(|c| *c == sig[j]).unwrap() };
             let mut hist = history(&o.trace);
             for h in hist.iter_mut() { if h.op.starts_with("with:") || h.op == "inc" { let i: usize = trace_index(&o.trace, h.call); h.result = format!("c{}", class_of(h.tid, i)); } }
+            // `hinc`: an increment of the child behind the thread's most recent `with` (no effect when there is none)
+            let mut extra_incs: Vec<u64> = vec![0; classes.len()];
+            for h in hist.iter_mut() { if h.op == "hinc" { let i: usize = trace_index(&o.trace, h.call);
+                match (0..i).rev().find(|j| prog[h.tid][*j].starts_with("with:")) { Some(j) => { let c = class_of(h.tid, j); extra_incs[c] += 1; h.op = "inc".into(); h.result = format!("c{}", c); } None => { h.op = "nop".into(); } } } }
+            hist.retain(|h| h.op != "nop");
             // a collect is its key-set operation plus one value read per shown key, all within its interval
             let mut extra = vec![];
             for h in hist.iter_mut() { if h.op == "collect" { let shown: Vec<(String, String)> = if h.result.is_empty() { vec![] } else { h.result.split('+').map(|kv| { let (k, v) = kv.split_once('=').unwrap(); (k.to_string(), v.to_string()) }).collect() };
@@ -215,7 +223,7 @@ impl Area for ConcVec {
             if o.stuck { fails.push(Failure { class: "stuck".into(), detail: line.clone() }); }
             else if !linearizable(&hist, St { map: vec![], used: vec![], vals: vec![] }, &apply, &accept) { fails.push(Failure { class: "not-linearizable".into(), detail: format!("no order consistent with real time explains {:?} (final keys {:?}) for {}", hist.iter().map(|h| format!("t{}:{}={}", h.tid, h.op, h.result)).collect::<Vec<_>>(), final_keys, line) }); }
             // no update lost: every class holds exactly the increments made through its handles
-            for (ci, c) in classes.iter().enumerate() { let members = sig.iter().filter(|s| *s == c).count() as u64; let j = sig.iter().position(|s| s == c).unwrap(); if before[j] != members { fails.push(Failure { class: "update-lost".into(), detail: format!("child class {} was incremented {} times but holds {}", ci, members, before[j]) }); } }
+            for (ci, c) in classes.iter().enumerate() { let members = sig.iter().filter(|s| *s == c).count() as u64; let j = sig.iter().position(|s| s == c).unwrap(); if before[j] != members + extra_incs[ci] { fails.push(Failure { class: "update-lost".into(), detail: format!("child class {} was incremented {} times but holds {}", ci, members + extra_incs[ci], before[j]) }); } }
             if final_keys.windows(2).any(|w| w[0] == w[1]) { fails.push(Failure { class: "duplicate-in-collect".into(), detail: format!("{:?}", final_keys) }); }
             let concurrent = hist.iter().any(|a| hist.iter().any(|b| a.tid != b.tid && a.call < b.ret && b.call < a.ret));
             stats.seen(&[line.clone()], concurrent);
